@@ -12,6 +12,7 @@ import PoetryVerif.Proofs.MetaStylesRange
 import PoetryVerif.Proofs.MetaStylesUnion
 import PoetryVerif.Proofs.MetaValidateExt
 import PoetryVerif.Proofs.MetaPrintersPy
+import PoetryVerif.Proofs.MetaPrinters2
 import PoetryVerif.Proofs.MetaHistory
 
 set_option linter.unusedSimpArgs false
@@ -276,6 +277,60 @@ theorem validated_render_parse_printers (proj : ProjectT) (tool : ToolT) (spdx :
     Rfc822.parse (render m) =
       { unixFrom := none, headers := expectedFields m, body := bodyOf (m.description.map String.toList), defects := [] } :=
   render_parse m (validation_implies_guard_printers proj tool spdx stored extras rd texts fp m hv hm hp)
+
+/-! #### no printer trusted (`Objects`)
+
+The printers themselves are now PROVED line-free at the model level; `Printers` follows from `Objects`
+(`printers_of_objects`), which only says that the OBJECTS handed to the printers hold line-free strings:
+
+| header | printer | theorem | what `Objects` still assumes |
+|---|---|---|---|
+| Requires-Dist | `Dependency.to_pep_508()` (`Dep.toPep508`, C10 model) | `to_pep_508_single_line` | each line is the print of a dependency object with `DepLineFree` (name, extras, url/reference/subdirectory: validated; bounds: `constraint_parse_bounds_line_free`; marker leaves: `parse_marker` rejects white space in values — checked on the real objects by the harness) |
+| Requires-Python (legacy) | `format_python_constraint` (`Dep02.formatPythonConstraint`), all branches | `format_python_single_line` | `fp` is the print of a constraint with line-free bounds (`pythonPrinted_of_parse` for a single-line `python` string) |
+| — | `str(constraint)` (`VC.toStr`) | `constraint_text_single_line` | — |
+| — | `str(marker)` (`M.toStr`), `create_nested_marker` | `marker_text_single_line` | — |
+| Project-URL (legacy links) | schema `format: uri`, regular expression modelled and pinned to the vendored text | `uri_format_single_line` | the schema engine accepted the value |
+| Classifier (licence) | SPDX names regenerated from licenses.json (`Gen.licenseFallbackNames`), `decide` | inside `validated_guard_printers` | `license_by_id` returns the table's entry |
+| Provides-Extra | `canonicalize_name` | `canonicalize_name_single_line` | every extra is the canonical form of a validated key | -/
+
+/-- **`to_pep_508()` emits no CR/LF** when the strings stored in the dependency object contain none -/
+theorem to_pep_508_single_line (d : Dep.Dep) (s : String) (h : d.toPep508 = .ok s) (hd : DepLineFree d) : SingleLine s :=
+  Dep.toPep508_singleLine d s h hd
+
+/-- **`str(constraint)` emits no CR/LF** when the texts of its bounds contain none (every spelling: ranges, `==X.*`,
+`!=V`, `!=X.*`, `||` joins) -/
+theorem constraint_text_single_line (c : VC) (s : String) (h : c.toStr = .ok s) (hb : BoundsLineFree c) : SingleLine s :=
+  Meta.VC.toStr_singleLine c s h hb
+
+/-- the bounds of every constraint `parse_constraint` returns from a single-line string carry line-free texts -/
+theorem constraint_parse_bounds_line_free (s : String) (c : VC) (hs : SingleLine s)
+    (h : VParser.parseConstraint s = .ok c) : BoundsLineFree c :=
+  parseConstraint_boundsLineFree s c hs h
+
+/-- **`format_python_constraint` emits no CR/LF**, every branch (version of any precision, range, union) -/
+theorem format_python_single_line (c : VC) (t : String) (h : Dep02.formatPythonConstraint c = .ok t)
+    (hb : BoundsLineFree c) : SingleLine t :=
+  formatPythonConstraint_singleLine c t h hb
+
+/-- **`str(marker)` emits no CR/LF** when the strings in its leaves contain none -/
+theorem marker_text_single_line (m : Marker.M) (s : String) (h : m.toStr = .ok s) (hg : Marker.M.Good LeafLineFree m) :
+    SingleLine s :=
+  Meta.M.toStr_singleLine m s h hg
+
+/-- a value accepted by the schema format `uri` contains no line break -/
+theorem uri_format_single_line (u : String) (h : uriFormatMatch u.toList = true) : SingleLine u :=
+  uriFormat_singleLine u h
+
+/-- **the loop closed, no printer trusted**: validated pyproject + line-free objects ⇒ METADATA parses into exactly the
+declared fields -/
+theorem validated_render_parse_objects (proj : ProjectT) (tool : ToolT) (spdx : String → Option License)
+    (stored : Option String) (extras rd texts : List String) (fp : String) (m : Meta.Meta)
+    (hv : validateSingleLine proj tool = [])
+    (hm : (configure proj tool spdx stored extras rd).toMeta texts fp = .ok m)
+    (ho : Objects proj tool spdx extras rd fp) :
+    Rfc822.parse (render m) =
+      { unixFrom := none, headers := expectedFields m, body := bodyOf (m.description.map String.toList), defects := [] } :=
+  render_parse m (validated_guard_objects proj tool spdx stored extras rd texts fp m hv hm ho)
 
 /-- Version: the normal-form text of every version the parser returns has no line break (indeed only digits, lower-case
 letters, `.`, `!`, `+`) -/
